@@ -40,9 +40,12 @@ def plan(tier, seed):
         specs.append(dict(kind='history', sub=k, n=3 + k % 4,
                           steps=3000 if tier == 'thorough' else 600,
                           auto=(k % 3 == 1), hashseed=k))
+    # instances beyond truth tables (12-70 variables), see vf/big.py
+    from vf import big
+    specs.extend(big.specs(tier, seed, 'C03'))
     meta = dict(
         rule=RULE,
-        require=['quantify_results', 'apply_form_results', 'same_ref_checks',
+        require=['big_histories', 'quantify_results', 'apply_form_results', 'same_ref_checks',
                  'steps', 'autoref_results', 'level_arg_results'],
         assumptions=['truth-table model in vf/oracle.py',
                      'operands held during the call'],
@@ -259,5 +262,8 @@ def history(ctx, spec):
 
 
 def run_shard(ctx, spec):
+    if spec['kind'] == 'big':
+        from vf import big
+        return ctx.guard('big', big.run, ctx, spec, case=spec)
     fn = dict(all=all_, used=used, history=history)[spec['kind']]
     ctx.guard(spec['kind'], fn, ctx, spec, case=spec)
